@@ -20,6 +20,8 @@ pub fn evaluate_query_set<'a>(polys: Vec<&'a LabeledPolynomial>, query_set: &BTr
     ensures
         // every queried (label, point) gets the evaluation there of the polynomial carrying that label (the last one, if a label repeats)
         forall|q: (String, (String, Fr))| query_set@.contains(q) ==> #[trigger] q_ok(polys@, q, res@),   // name=lib.evaluate_query_set.value_is_the_labelled_polynomials_evaluation props=C16
+        // every queried pair is reported (a query for a label without polynomial aborts)
+        forall|q: (String, (String, Fr))| query_set@.contains(q) ==> res@.dom().contains((q.0, q.1.1)),   // name=lib.evaluate_query_set.every_queried_pair_is_reported props=C16,C06
         // nothing else is reported
         forall|k: (String, Fr)| res@.dom().contains(k) ==> exists|q: (String, (String, Fr))| query_set@.contains(q) && q.0 == k.0 && q.1.1 == k.1,   // name=lib.evaluate_query_set.only_queried_pairs props=C16
 //@body
@@ -42,6 +44,7 @@ pub fn evaluate_query_set<'a>(polys: Vec<&'a LabeledPolynomial>, query_set: &BTr
 //@loop 1 kw=for name=it
         invariant it.index@ <= qv__@.len(), map_ok(polys@, polys0),
             forall|k: int| 0 <= k < it.index@ ==> q_ok(polys0, *(#[trigger] qv__@[k]), evaluations@),
+            forall|k: int| 0 <= k < it.index@ ==> evaluations@.dom().contains(((#[trigger] qv__@[k]).0, qv__@[k].1.1)),
             forall|kk: (String, Fr)| evaluations@.dom().contains(kk) ==> exists|k: int| 0 <= k < it.index@ && (#[trigger] qv__@[k]).0 == kk.0 && qv__@[k].1.1 == kk.1,
 //@loopstart 1
         let ghost ev0 = evaluations@;
